@@ -6,6 +6,7 @@ RULE = ('case idx -> (suite, version) = table[idx % 75] (all 45 suites x the ver
         'buffer layout {mono, engine-split, two buffers} x size class {512,1024,2048,4096,8192,16384}+overhead(+1) per side, '
         'who narrows the version {client offers exactly it, server limited to it while the client offers 1.0-1.2, both capped}, '
         'against OpenSSL a third of the sessions with client authentication (RSA / EC certificate; OpenSSL verifies the BearSSL client chain and CertificateVerify, the BearSSL server verifies OpenSSL as client), '
+        'implementation set per side {library defaults = AES-NI/pclmul/SSE2, the small constant-time set of an ESP8266 (aes_ct, des_ct, ghash_ctmul32, chacha20_ct, poly1305_ctmul32, EC all_m15, i15), table/32-bit set, 64-bit set}, '
         'transport chunk policy {1 byte, small, random, whole, mixed}, write policy, payload lengths around fragment '
         'boundaries {0,1,2,f-1,f,f+1,2f+3,random}, closing side; seeded by VERIF_SEED. A case is non-trivial when the '
         'handshake completed and both streams were delivered; distinct = distinct (suite,version,key kind,layouts,size classes) '
@@ -16,7 +17,7 @@ ASSUMPTIONS = [
     'seeder replaced by a fixed seed (hook H1) so that cases are reproducible',
 ]
 EVAL = ['cases']
-DISTINCT = ['config', 'schedule', 'version_shape', 'ossl_client_auth']
+DISTINCT = ['config', 'schedule', 'version_shape', 'ossl_client_auth', 'impl_sets']
 REQUIRED = ['cases', 'sessions_completed', 'records_protected', 'c06_checks', 'param_compares',
             'ossl_sessions_completed', 'ossl_mfl_echoed', 'ossl_verified_bearssl_client', 'bearssl_verified_ossl_client']
 NW = 16
